@@ -50,11 +50,47 @@ theorem or_add40 (A B : Nat) (hA : 1099511627776 ∣ A) (hB : B < 1099511627776)
 theorem or_add48 (A B : Nat) (hA : 281474976710656 ∣ A) (hB : B < 281474976710656) : A ||| B = A + B := or_eq_add 48 A B hA hB
 theorem or_add56 (A B : Nat) (hA : 72057594037927936 ∣ A) (hB : B < 72057594037927936) : A ||| B = A + B := or_eq_add 56 A B hA hB
 
+/-- `x & (2^k - 1) = x mod 2^k`, for the masks that occur in byte/bit-field code, in both operand orders -/
+theorem and_mask (k x : Nat) : x &&& (2 ^ k - 1) = x % 2 ^ k := Nat.and_two_pow_sub_one_eq_mod x k
+theorem mask_and (k x : Nat) : (2 ^ k - 1) &&& x = x % 2 ^ k := by rw [Nat.and_comm]; exact and_mask k x
+theorem and_1 (x : Nat) : x &&& 1 = x % 2 := and_mask 1 x
+theorem and_3 (x : Nat) : x &&& 3 = x % 4 := and_mask 2 x
+theorem and_7 (x : Nat) : x &&& 7 = x % 8 := and_mask 3 x
+theorem and_15 (x : Nat) : x &&& 15 = x % 16 := and_mask 4 x
+theorem and_31 (x : Nat) : x &&& 31 = x % 32 := and_mask 5 x
+theorem and_63 (x : Nat) : x &&& 63 = x % 64 := and_mask 6 x
+theorem and_127 (x : Nat) : x &&& 127 = x % 128 := and_mask 7 x
+theorem and_255 (x : Nat) : x &&& 255 = x % 256 := and_mask 8 x
+theorem and_65535 (x : Nat) : x &&& 65535 = x % 65536 := and_mask 16 x
+theorem and_4294967295 (x : Nat) : x &&& 4294967295 = x % 4294967296 := and_mask 32 x
+theorem and_1' (x : Nat) : 1 &&& x = x % 2 := mask_and 1 x
+theorem and_3' (x : Nat) : 3 &&& x = x % 4 := mask_and 2 x
+theorem and_7' (x : Nat) : 7 &&& x = x % 8 := mask_and 3 x
+theorem and_15' (x : Nat) : 15 &&& x = x % 16 := mask_and 4 x
+theorem and_31' (x : Nat) : 31 &&& x = x % 32 := mask_and 5 x
+theorem and_63' (x : Nat) : 63 &&& x = x % 64 := mask_and 6 x
+theorem and_127' (x : Nat) : 127 &&& x = x % 128 := mask_and 7 x
+theorem and_255' (x : Nat) : 255 &&& x = x % 256 := mask_and 8 x
+theorem and_65535' (x : Nat) : 65535 &&& x = x % 65536 := mask_and 16 x
+theorem and_4294967295' (x : Nat) : 4294967295 &&& x = x % 4294967296 := mask_and 32 x
+
+/-- `A | B = A + B` also with the small operand on the left -/
+theorem or_add8' (A B : Nat) (hA : 256 ∣ A) (hB : B < 256) : B ||| A = A + B := by rw [Nat.or_comm]; exact or_add8 A B hA hB
+theorem or_add16' (A B : Nat) (hA : 65536 ∣ A) (hB : B < 65536) : B ||| A = A + B := by rw [Nat.or_comm]; exact or_add16 A B hA hB
+theorem or_add24' (A B : Nat) (hA : 16777216 ∣ A) (hB : B < 16777216) : B ||| A = A + B := by rw [Nat.or_comm]; exact or_add24 A B hA hB
+theorem or_add32' (A B : Nat) (hA : 4294967296 ∣ A) (hB : B < 4294967296) : B ||| A = A + B := by rw [Nat.or_comm]; exact or_add32 A B hA hB
+theorem or_add40' (A B : Nat) (hA : 1099511627776 ∣ A) (hB : B < 1099511627776) : B ||| A = A + B := by rw [Nat.or_comm]; exact or_add40 A B hA hB
+theorem or_add48' (A B : Nat) (hA : 281474976710656 ∣ A) (hB : B < 281474976710656) : B ||| A = A + B := by rw [Nat.or_comm]; exact or_add48 A B hA hB
+theorem or_add56' (A B : Nat) (hA : 72057594037927936 ∣ A) (hB : B < 72057594037927936) : B ||| A = A + B := by rw [Nat.or_comm]; exact or_add56 A B hA hB
+
 /-- After pushing a fixed-width expression to `Nat`: drop every `% m` that `omega` can show to be vacuous and turn
 every `A ||| B` with provably disjoint bits (byte-aligned) into `A + B`, so that `omega` can finish.  Handles
 `(b0 << 8) | b1`, `(b0 << 8) + b1`, and mixtures alike. -/
 macro "bits_to_arith" : tactic => `(tactic| (
   try simp (disch := omega) only [Nat.mod_eq_of_lt, Nat.shiftLeft_eq, Nat.shiftRight_eq_div_pow,
-    or_add8, or_add16, or_add24, or_add32, or_add40, or_add48, or_add56] at *))
+    or_add8, or_add16, or_add24, or_add32, or_add40, or_add48, or_add56,
+    or_add8', or_add16', or_add24', or_add32', or_add40', or_add48', or_add56',
+    and_1, and_3, and_7, and_15, and_31, and_63, and_127, and_255, and_65535, and_4294967295,
+    and_1', and_3', and_7', and_15', and_31', and_63', and_127', and_255', and_65535', and_4294967295'] at *))
 
 end Lemmas
